@@ -692,6 +692,7 @@ def write_evidence(prop, tier, verif_seed, module, results, agg, det, known_seen
             "benign_drift": dict(agg["benign"].most_common(12)),
             "components": module.COMPONENTS,
             "determinism_selftest": det,
+            "run_digest": hashlib.sha256("".join(f"{o['idx']}:{o.get('digest')};" for o in results).encode()).hexdigest(),
             "known_findings_seen": known_seen,
             "violations": new_violations,
             "budget_truncated_by_wall_cap": truncated,
